@@ -283,10 +283,14 @@ func c01Async(r *vg.Rand, net *c01Net, pvs []types.MockPV, maxSteps, lossPct, ea
 
 func c01Run(r *vg.Rand, k int) (term string, descr string, nontrivial bool, decided int, kind string) {
 	nv := 4 + r.Intn(3)
+	scripted := k%4 == 3 // a round-structured adversary with a scripted opening (verif_c01_rounds_test.go)
+	if scripted {
+		nv = 4
+	}
 	powers := make([]int64, nv)
 	for i := range powers {
 		powers[i] = 10
-		if r.Chance(30) {
+		if r.Chance(30) && !scripted {
 			powers[i] = 5 + int64(r.Intn(15))
 		}
 	}
@@ -294,12 +298,20 @@ func c01Run(r *vg.Rand, k int) (term string, descr string, nontrivial bool, deci
 	total := state.Validators.TotalVotingPower()
 	// choose faulty validators with strictly less than one third of the power
 	net := &c01Net{kinds: map[string]int{}, inbox: map[*c02Harness][]msgInfo{}}
-	var fpow int64
-	for _, i := range r.Perm(nv) {
-		p := state.Validators.Validators[i].VotingPower
-		if 3*(fpow+p) < total && r.Chance(70) {
-			net.faulty = append(net.faulty, i)
-			fpow += p
+	var opening []c01RoundPlan
+	opName := ""
+	if scripted {
+		var f int
+		f, opening, opName = c01Opening(r, c01Rotation(state, 4), r.Intn(3))
+		net.faulty = []int{f}
+	} else {
+		var fpow int64
+		for _, i := range r.Perm(nv) {
+			p := state.Validators.Validators[i].VotingPower
+			if 3*(fpow+p) < total && r.Chance(70) {
+				net.faulty = append(net.faulty, i)
+				fpow += p
+			}
 		}
 	}
 	isFaulty := map[int]bool{}
@@ -326,6 +338,10 @@ func c01Run(r *vg.Rand, k int) (term string, descr string, nontrivial bool, deci
 	lossPct := []int{0, 0, 3, 10, 25}[r.Intn(5)]
 	earlyTimeoutPct := []int{0, 0, 1, 3, 8}[r.Intn(5)] // timeouts firing although messages are in flight
 	byzPct := []int{1, 3, 6}[r.Intn(3)]
+	if scripted {
+		c01RoundsRun(r, net, pvs, opening, len(opening)+1+r.Intn(4))
+		net.kinds["rounds/"+opName]++
+	}
 	c01Async(r, net, pvs, maxSteps, lossPct, earlyTimeoutPct, byzPct, false)
 	// the Coq term: validator set, flags, proposer table, one trace per correct node
 	var vals []string
@@ -350,6 +366,9 @@ func c01Run(r *vg.Rand, k int) (term string, descr string, nontrivial bool, deci
 	var nodes []string
 	var d strings.Builder
 	fmt.Fprintf(&d, "validators=%d powers=%v faulty=%v skipTimeoutCommit=%v loss=%d%% earlyTimeouts=%d%% byz=%d%%;", nv, powers, net.faulty, skip, lossPct, earlyTimeoutPct, byzPct)
+	if scripted {
+		fmt.Fprintf(&d, " round-structured adversary, opening %q;", opName)
+	}
 	panics := 0
 	for _, h := range net.nodes {
 		nodes = append(nodes, vg.Tup(vg.Z(int64(h.me)), vg.L(h.steps)))
@@ -370,6 +389,9 @@ func c01Run(r *vg.Rand, k int) (term string, descr string, nontrivial bool, deci
 	}
 	term = vg.App("CNet", vg.L(vals), vg.B(skip), vg.Z(1), vg.L(props), vg.L(nodes))
 	kind = fmt.Sprintf("net/n=%d/faulty=%d/decided=%d/panics=%d", nv, len(net.faulty), decided, panics)
+	if scripted {
+		kind = "rounds-" + opName + "/" + kind
+	}
 	return term, d.String(), decided > 0, decided, kind
 }
 
@@ -607,7 +629,7 @@ func TestVerifC03Sync(t *testing.T) {
 			continue
 		}
 		r := root.Fork(uint64(k))
-		term, descr, ok, kind := c03Run(r)
+		term, descr, ok, kind := c03Run(r, k)
 		if ok {
 			decidedAll++
 		}
@@ -621,8 +643,12 @@ func TestVerifC03Sync(t *testing.T) {
 
 // c03Run: an adversarial asynchronous prefix (as in C01, equal powers so that the proposer
 // rotation is a plain round robin) followed by a synchronous suffix.
-func c03Run(r *vg.Rand) (term, descr string, allDecided bool, kind string) {
+func c03Run(r *vg.Rand, k int) (term, descr string, allDecided bool, kind string) {
 	nv := 4 + r.Intn(3)
+	scripted := k%4 == 3
+	if scripted {
+		nv = 4
+	}
 	powers := make([]int64, nv)
 	for i := range powers {
 		powers[i] = 10
@@ -630,8 +656,16 @@ func c03Run(r *vg.Rand) (term, descr string, allDecided bool, kind string) {
 	state, pvs := c02Genesis(r, nv, powers)
 	net := &c01Net{kinds: map[string]int{}, inbox: map[*c02Harness][]msgInfo{}}
 	nf := r.Intn((nv-1)/3 + 1) // 0 .. floor((n-1)/3) faulty validators of equal power
-	for _, i := range r.Perm(nv)[:nf] {
-		net.faulty = append(net.faulty, i)
+	var opening []c01RoundPlan
+	opName := ""
+	if scripted {
+		var f int
+		f, opening, opName = c01Opening(r, c01Rotation(state, 4), r.Intn(3))
+		net.faulty = []int{f}
+	} else {
+		for _, i := range r.Perm(nv)[:nf] {
+			net.faulty = append(net.faulty, i)
+		}
 	}
 	isFaulty := map[int]bool{}
 	for _, i := range net.faulty {
@@ -656,7 +690,12 @@ func c03Run(r *vg.Rand) (term, descr string, allDecided bool, kind string) {
 	// asynchronous prefix: lossy, early timeouts, split-brain and equivocation
 	prefix := 150 + r.Intn(450)
 	withhold := r.Chance(50) // precommits never arrive during the prefix: nodes lock but cannot decide
-	c01Async(r, net, pvs, prefix, []int{0, 10, 25, 40}[r.Intn(4)], []int{3, 8, 15}[r.Intn(3)], 8, withhold)
+	if scripted {
+		c01RoundsRun(r, net, pvs, opening, len(opening)+r.Intn(3))
+		prefix = 0
+	} else {
+		c01Async(r, net, pvs, prefix, []int{0, 10, 25, 40}[r.Intn(4)], []int{3, 8, 15}[r.Intn(3)], 8, withhold)
+	}
 	// the synchronous suffix starts here
 	var marks []string
 	h0 := int64(0)
@@ -685,7 +724,11 @@ func c03Run(r *vg.Rand) (term, descr string, allDecided bool, kind string) {
 			}
 		}
 	}
-	c03Sync(r, net, pvs, h0, bound+2, 30)
+	syncByz := 30
+	if scripted && r.Bool() { // the faulty validators fall silent: termination must not depend on their help
+		syncByz = 0
+	}
+	c03Sync(r, net, pvs, h0, bound+2, syncByz)
 	allDecided = true
 	for _, h := range net.nodes {
 		if !h.panicked && h.cs.Height <= h0 {
@@ -753,5 +796,9 @@ func c03Run(r *vg.Rand) (term, descr string, allDecided bool, kind string) {
 	}
 	term = vg.App("CSync", vg.L(vals), vg.B(skip), vg.Z(1), vg.L(props), vg.L(nodes), vg.L(marks), vg.Z(h0), vg.Z(int64(bound)))
 	kind = fmt.Sprintf("sync/n=%d/faulty=%d/locked=%d/alldecided=%v", nv, len(net.faulty), locked, allDecided)
+	if scripted {
+		kind = "rounds-" + opName + "/" + kind
+		fmt.Fprintf(&d, " prefix: round-structured adversary, opening %q, faulty activity during synchrony %d%%;", opName, syncByz)
+	}
 	return term, d.String(), allDecided, kind
 }
